@@ -443,6 +443,9 @@ theorem apply_msg_cl (hc : LClosed P) {s s' : St} {o : Op} (h : P s) (e : apply 
   | fraud au ra hh rev p rw => exact fraud_cl hc h e
   | obsolete au vs => exact markObsolete_cl hc h e
   | punish au a rw => exact punish_cl hc h (punishProposal_ok e).2
+  | transferOwner sg ra' no =>
+    obtain ⟨r, hg, _, _, _, rfl⟩ := transferOwner_ok e
+    exact hc.set_same h hg rfl rfl rfl
   | begin_ dt => cases hm
   | end_ f => cases hm
 
